@@ -20,6 +20,31 @@ CHECKS = {
              're on each run), spec/trs_spec.py. Numbers in construct_trs are enumerated (formatting concretises them). '
              'A missing section yielding the error section (TRS("154n97w") -> "154n97wXX") is accepted as an error '
              'placeholder, not a violation. Floor: N=12.'),
+    'C17': dict(
+        engine='S', category='other', design_ref='DESIGN.md §4 C17',
+        technique='CrossHair (z3-backed symbolic execution) of the real custom_sort/_sort_custom over symbolic element '
+                  'attributes, path tree exhausted, compared per path with a reference stable multi-key sort',
+        text='For each key string of a table (12 variable/sub-method forms x plain/.rev/.reverse, multi-key strings with '
+             'spacing and case variants) the Twp/Rge/Sec numbers, directions (n/s/e/w or error), section and creation '
+             'counter of 3 elements (2 for two-direction multi-keys in quick; 3-4 in thorough) are symbolic; CrossHair '
+             'exhausts every ordering/tie/error pattern through the real sort and the result must equal folding stable '
+             'sorts left to right with errors ranked last (first when reversed). Unknown variables / inapplicable '
+             'directions must raise ValueError.',
+        note='Elements are Tract/TRS subclasses bypassing __init__ (attributes injected); numbers 0..999; key strings from a '
+             'table, not symbolic. Keys that merely contain a legal letter (e.g. "z.rev") are interpreted with a SyntaxWarning '
+             'by design and are not counted as violations.'),
+    'C18': dict(
+        engine='S', category='other', design_ref='DESIGN.md §4 C18',
+        technique='CrossHair symbolic execution of the real filter / filter_errors / filter_duplicates / group_by / '
+                  'group_by_nested / unpack_group / construction paths, path tree exhausted, partition oracle per path',
+        text='List length (0..3 quick, 0..4 thorough), predicate truth table, drop flag, element kinds, shared instances, '
+             'attribute values and attribute-list orders are symbolic; every path through the real container code is '
+             'compared with an order-preserving-partition oracle; construction through ctor, extend, +=, +, append, insert, '
+             '__setitem__, from_multiple (flat and nested) must keep every element in order (converted to TRS for a TRSList) '
+             'or raise TypeError.',
+        note='filter/group use injected-attribute Tract subclasses; filter_errors/filter_duplicates/construction use real Tract/'
+             'TRS/PLSSDesc objects chosen by symbolic index from small tables. PLSSDesc is an acceptable *source* for '
+             'from_multiple (documented) and contributes its tracts.'),
 }
 
 NOT_YET = 'check not built yet in this round (see DESIGN.md §9 build order)'
